@@ -133,6 +133,14 @@ func (s *Store) Has(c cid.Cid) bool {
 	s.mu.Lock()
 	defer s.mu.Unlock()
 	_, ok := s.blocks[c.KeyString()]
+	if !ok && c.Prefix().Codec == cid.Raw {
+		// a block store keeps blocks by multihash: the raw-codec cid of a stored block's hash is present
+		for k := range s.blocks {
+			if kc, err := cid.Cast([]byte(k)); err == nil && bytes.Equal(kc.Hash(), c.Hash()) {
+				return true
+			}
+		}
+	}
 	return ok
 }
 
